@@ -306,10 +306,12 @@ Proof.
       * destruct (orule_id_nth _ HR) as (r & Nth & Nm). cbn [exec] in H. unfold vm_env in H. rewrite Nth in H. cbn [option_map] in H.
         assert (Hin : In r RG) by (eapply nth_error_In; eauto).
         assert (OB : okx D (oexpr_of r)) by (apply DC; auto; now rewrite Nm).
-        apply (wraps_clean (vme (oexpr_of r)) n (fun f1 s1 a1 x1 L1 W1 I1 H1 => IH f1 L1 (oexpr_of r) s1 a1 x1 OB W1 I1 H1)
-                           _ (vm_rule_body_wraps r) fuel s a x Hf W I H).
+        pose proof (wraps_clean (vme (oexpr_of r)) n (fun f1 s1 a1 x1 L1 W1 I1 H1 => IH f1 L1 (oexpr_of r) s1 a1 x1 OB W1 I1 H1)) as WC.
+        pose proof (vm_rule_body_wraps r) as WR.
+        exact (WC _ WR fuel s a x Hf W I H).
       * case_eq (uranges n0); [intros rs Hu|intros Hu]; rewrite Hu in H; [refine (safe_clean _ _ _ _ _ _ W I H); reflexivity|].
-        cbn [exec] in H. unfold vm_env in H. rewrite (proj2 (nth_error_None RG (S (List.length RG)))) in H by lia. discriminate.
+        assert (Nn : nth_error RG (S (List.length RG)) = None) by (apply nth_error_None; apply Nat.le_succ_diag_r).
+        cbn [exec] in H. unfold vm_env in H. rewrite Nn in H. discriminate H.
   - (* OPosPred *) eapply lookahead_restores; eauto.
   - (* ONegPred *) eapply lookahead_restores; eauto.
   - (* OSeq *) eapply sequence_err_restores; eauto.
@@ -317,7 +319,7 @@ Proof.
     pose proof (exec_post cfg E fuel (vme e1) s a W I) as P.
     destruct (exec cfg E fuel (vme e1) s) as [y|y|k|] eqn:E1; try discriminate.
     cbn in P. destruct P as (_ & Wy & ay & Iy & _).
-    rewrite (IH fuel Hf e2 y ay x Or Wy Iy H). eapply IH; eauto.
+    rewrite (IH fuel Hf e2 y ay x Or Wy Iy H). exact (IH fuel Hf e1 s a y Ol W I E1).
   - (* OOpt *) cbn [exec] in H. destruct (inc_call s); [|now injection H as <-]. destruct (exec _ _ _ _ _); discriminate.
   - (* ORep *) eapply sequence_err_restores; eauto.
   - (* ORepOnce *) eapply sequence_err_restores; eauto.
@@ -328,3 +330,71 @@ Proof.
   - (* ORestoreOnErr *) eapply proe_err; eauto.
 Qed.
 End Clean.
+
+(* ---------- putting (A) and (B) together ---------- *)
+Lemma nodes_ok_okx D : forall e, nodes_ok D e -> okx D e.
+Proof.
+  unfold nodes_ok. induction e; cbn [oiter_top_down okx]; intros H; inversion H as [|? ? H0 H1]; subst; auto.
+  - apply Forall_app in H1. destruct H1. split; auto.
+Qed.
+
+Section Assembly.
+Variable OG : ogrammar.                                  (* the optimized rules before restoration *)
+Notation RG := (restore_all true true OG).
+Notation cmsb := (child_modifies_state true true OG).
+Notation wrapif := (wrap_if true true OG).
+Notation rest := (restore_expr true true OG).
+
+Lemma restore_okx D : forall e, nodes_ok D e -> okx D (rest e).
+Proof.
+  unfold nodes_ok, restore_expr.
+  induction e; cbn [oiter_top_down omap_bottom_up wrap_branching_exprs okx]; intros H; inversion H as [|? ? H0 H1]; subst; auto.
+  - apply Forall_app in H1. destruct H1 as [Ha Hb]. unfold wrap_if.
+    split; [destruct (child_modifies_state _ _ _ _); [exact I|now apply IHe1]|destruct (child_modifies_state _ _ _ _); [exact I|now apply IHe2]].
+Qed.
+
+Fixpoint noroe (e : oexpr) : Prop :=
+  match e with
+  | ORestoreOnErr _ => False
+  | OSeq l r | OChoice l r => noroe l /\ noroe r
+  | OPosPred x | ONegPred x | OOpt x | ORep x | ORepOnce x | OPush x | ONodeTag x _ => noroe x
+  | _ => True
+  end.
+
+Lemma alts_wrapif y : alternatives (wrapif y) = alternatives y.
+Proof. unfold wrap_if. destruct (child_modifies_state _ _ _ _); reflexivity. Qed.
+
+Lemma alt_wrapped : forall e, noroe e -> forall c, In c (alternatives (rest e)) -> exists c0, c = wrapif c0.
+Proof.
+  unfold restore_expr.
+  induction e; cbn [noroe omap_bottom_up wrap_branching_exprs alternatives]; intros N c Hc; try contradiction; auto.
+  - destruct N as [N1 N2]. apply in_app_or in Hc. destruct Hc; auto.
+  - destruct N as [N1 N2]. destruct Hc as [<-|[<-|Hc]]; eauto. rewrite !alts_wrapif in Hc. apply in_app_or in Hc. destruct Hc; auto.
+  - destruct Hc as [<-|Hc]; eauto. rewrite alts_wrapif in Hc. auto.
+  - destruct Hc as [<-|Hc]; eauto. rewrite alts_wrapif in Hc. auto.
+Qed.
+
+Hypothesis Huniq : NoDup (map oname OG).
+
+Lemma find_orule_uniq : forall g r, NoDup (map oname g) -> In r g -> find_orule g (oname r) = Some r.
+Proof.
+  induction g as [|x g IH]; intros r ND Hin; [destruct Hin|]. cbn [map] in ND. inversion ND as [|? ? Nx ND']; subst. cbn [find_orule].
+  destruct Hin as [<-|Hin].
+  - destruct (find_orule g (oname x)) as [y|] eqn:F.
+    + exfalso. destruct (find_orule_in _ _ _ F) as [Hy Sy]. apply str_eqb_eq in Sy. apply Nx. rewrite <- Sy. now apply in_map.
+    + now rewrite str_eqb_refl'.
+  - now rewrite (IH r ND' Hin).
+Qed.
+
+Theorem restorer_sound : (forall r, In r OG -> noroe (oexpr_of r)) -> restorer_ok true true OG.
+Proof.
+  intros NR r Hr c Hc. unfold restore_all in Hr. apply in_map_iff in Hr. destruct Hr as (r0 & <- & Hr0). cbn [restore_rule oexpr_of] in Hc.
+  destruct (alt_wrapped _ (NR _ Hr0) _ Hc) as [c0 ->].
+  intros cfg uranges fuel s a s' W I H. unfold wrap_if in *. destruct (child_modifies_state true true OG c0) eqn:CM.
+  - eapply proe_err; eauto.
+  - destruct (child_modifies_state_closed OG c0 CM) as (D & N0 & CL).
+    eapply (okx_clean cfg RG uranges D) with (n := fuel) (fuel := fuel); eauto using nodes_ok_okx.
+    intros q Hq Dq. unfold restore_all in Hq. apply in_map_iff in Hq. destruct Hq as (q0 & <- & Hq0). cbn [restore_rule oexpr_of oname] in *.
+    apply restore_okx. apply (CL (oname q0)); auto. unfold omap_get. now rewrite (find_orule_uniq OG q0 Huniq Hq0).
+Qed.
+End Assembly.
